@@ -368,3 +368,43 @@ fn pass_through_outside_a_simulation() {
     thread::current().unpark();
     thread::park();
 }
+
+#[test]
+fn condvar_wait_and_notify() {
+    use dsim::shim::sync::Condvar;
+    for (seed, strategy) in seeds().take(150) {
+        let r = run_with(seed, strategy, FaultPlan::default(), || {
+            let pair = Arc::new((Mutex::new(0u32), Condvar::new()));
+            let hs: Vec<_> = (0..2)
+                .map(|_| {
+                    let pair = pair.clone();
+                    thread::spawn(move || {
+                        let (m, cv) = &*pair;
+                        let mut g = m.lock().unwrap();
+                        *g += 1;
+                        cv.notify_all();
+                        drop(g);
+                    })
+                })
+                .collect();
+            let (m, cv) = &*pair;
+            let mut g = m.lock().unwrap();
+            while *g < 2 {
+                g = cv.wait(g).unwrap();
+            }
+            drop(g);
+            for h in hs {
+                h.join().unwrap();
+            }
+        });
+        assert!(r.failure.is_none() && r.main_panic.is_none(), "{:?} {:?}", r.failure, r.main_panic);
+    }
+    // A wait nobody notifies is a deadlock, not a hang.
+    let r = run_with(1, StrategySpec::RunToBlock, FaultPlan::default(), || {
+        let m = Mutex::new(());
+        let cv = Condvar::new();
+        let g = m.lock().unwrap();
+        let _g = cv.wait(g);
+    });
+    assert!(matches!(r.failure, Some(Failure::Deadlock { .. })), "{:?}", r.failure);
+}
